@@ -98,15 +98,11 @@ def combine (leaf : Tree → ProcOut) : Tree → ProcOut
     else if op = "or" then
       (if a.verdict then a else
         let b := combine leaf r
-        match b.err with
-        | some (.panic _) => { b with debug := none, calls := a.calls ++ b.calls }
-        | _ => { b with debug := b.debug.orElse (fun _ => a.debug), calls := a.calls ++ b.calls })
+        { b with debug := b.debug.orElse (fun _ => a.debug), calls := a.calls ++ b.calls })
     else
       (if !a.verdict then a else
         let b := combine leaf r
-        match b.err with
-        | some (.panic _) => { b with debug := none, calls := a.calls ++ b.calls }
-        | _ => { b with debug := b.debug.orElse (fun _ => a.debug), calls := a.calls ++ b.calls })
+        { b with debug := b.debug.orElse (fun _ => a.debug), calls := a.calls ++ b.calls })
   | t => leaf t
 
 end Rules
